@@ -32,6 +32,9 @@ CLAIMED = {
  "C13": ("abstract interpretation of serialiser and parser over symbolic token strings (atoms = all names / all non-negative ints), comparing slots written and slots read; sibling agreement of construction sites",
          "Decides writer/reader agreement for the column description and table format grammars exhaustively over their finite state spaces (16 column states, 12 table-format states, separators-only strings, a three-column list): whatever to_fmt_str / _get_fmt_str can emit is interpreted through _parse_col_fmt / _PPTableParsedFmt on token strings whose atoms stand for every field name, modifier and integer, and each value must land in the slot it was written from; plus slot order at every ReprColumn construction site and the 'empty format changes nothing' branches.",
          "Assumes field names and modifiers contain none of the format's punctuation. That re-negotiated widths equal the previous ones (same records) is value-level and not decided. A serialiser/parser using string operations outside the interpreted subset ends in ANALYSIS-ERROR.", "3/C13"),
+ "C11": ("event-language inclusion (CFG x boolean flags x buffer mode x specification DFA), def-use on element loops, constant folding, kind-domain abstract interpretation of the simple-value renderer",
+         "Decides what can break the read-back for every value at once: the separator / bracket / newline state machine. The language of yielded token events over all paths of the recursive chunk generator (all seven layout modes, any number of loop iterations, recursion as one letter = structural induction) is included in the JSON token skeleton; every element loop emits one element per iteration from the container / sorted keys with nothing skipped; literal tables, quoting and line cutting are as required; the simple/compound split is exhaustive on the JSON kinds with bool before number.",
+         "Round-trip equality on concrete data, thresholds / offsets (they only choose among modes each of which is verified), float formatting and the excluded characters are NOT decided. Keys are assumed to be strings for JSON mode.", "3/C11"),
 }
 
 NOT_APPLICABLE = {
